@@ -290,8 +290,8 @@ def gate1(ctx: Ctx, chk) -> None:
                 dflt_ok = len(ic.args) == 3 and isinstance(ic.args[2], ast.Constant) and ic.args[2].value is None
                 # gate dominates the dispatch
                 g = CFG(f.node)
-                gate_nodes = g.nodes_where(lambda x: any(y is c for y in ast.walk(x.ast)))
-                disp_nodes = g.nodes_where(lambda x: any(y is ic for y in ast.walk(x.ast)))
+                gate_nodes = g.nodes_where(lambda x: x.contains(c))
+                disp_nodes = g.nodes_where(lambda x: x.contains(ic))
                 dom = bool(gate_nodes) and bool(disp_nodes) and all(any(g.dominates(gn, dn) for gn in gate_nodes) for dn in disp_nodes)
                 probs = []
                 if not arg_ok:
